@@ -112,7 +112,7 @@ def _gen_json(g):
     g.note_repo_files(["paseto-json/src/lib.rs", "paseto-core/src/validation.rs"])
 
 
-_reg(Group("json_units", gen=_gen_json))
+_reg(Group("json_units", gen=_gen_json, stubbing=True))
 
 B64 = "base64::proofs::"
 
@@ -192,10 +192,10 @@ MFA = [("msg", "bytes:24"), ("footer", "bytes:24"), ("aad", "bytes:24")]
 BACKENDS = {}
 
 
-def l2_backend(name, group, aad, sizes, quick=True, paserk=True, pke=True, public=True, extra=None):
+def l2_backend(name, group, aad, sizes, quick=True, paserk=True, pke=True, public=True, extra=None, rng_fail=True, keys=None):
     """registers harness specs for one backend; returns dict prop -> [H]"""
     P = "proofs::"
-    out = {k: [] for k in ("C01", "C02", "C04", "C05", "C06", "C12", "C16")}
+    out = {k: [] for k in ("C01", "C02", "C04", "C05", "C06", "C08", "C12", "C13", "C16")}
     A = 1 if aad else 0
     q = "qt" if quick else "t"
 
@@ -247,7 +247,7 @@ def l2_backend(name, group, aad, sizes, quick=True, paserk=True, pke=True, publi
                             replay_args={"backend": name, "op": n.split("_")[0], "n": ln},
                             doc="%s: unseal of arbitrary payload bytes of length %d, every Kani memory-safety/panic/overflow check on" % (name, ln)))
     # C16
-    for n in ["local_rng_fail_closed_"] + (["public_rng_fail_closed_"] if public else []):
+    for n in (["local_rng_fail_closed_"] + (["public_rng_fail_closed_"] if public else [])) if rng_fail else []:
         out["C16"].append(H(group, P + n, q, timeout=900, mem=10, mode="lean", replay="native:rng_fail", schema=[],
                             replay_args={"backend": name, "op": "local_seal" if n.startswith("local") else "random_secret", "at": 0},
                             doc="%s: RNG failure at the draw of nonce()/random() is returned as Err, nothing is produced" % name))
@@ -261,8 +261,9 @@ def l2_backend(name, group, aad, sizes, quick=True, paserk=True, pke=True, publi
             out["C06"].append(H(group, P + n, q if w in (0, 1) else "t", timeout=1500, mem=14, mode="lean", replay="native:pie",
                                 schema=TOK + [("wkey", "bytes:32"), ("kd", "bytes:32")], replay_args={"backend": name, "kind": "local", "w": w},
                                 doc="%s PIE: tamper class %s must be rejected" % (name, n[11:])))
-        out["C16"].append(H(group, P + "pie_rng_fail_closed_", q, timeout=900, mem=10, mode="lean", replay="native:rng_fail", schema=[],
-                            replay_args={"backend": name, "op": "pie", "at": 0}, doc="%s PIE: RNG failure => Err" % name))
+        if rng_fail:
+            out["C16"].append(H(group, P + "pie_rng_fail_closed_", q, timeout=900, mem=10, mode="lean", replay="native:rng_fail", schema=[],
+                                replay_args={"backend": name, "op": "pie", "at": 0}, doc="%s PIE: RNG failure => Err" % name))
         for n in ("pie_unwrap_arbitrary_n0", "pie_unwrap_arbitrary_below", "pie_unwrap_arbitrary_above"):
             ln = {"n0": 0, "below": sizes["pie_over"] - 1, "above": sizes["pie_over"] + 1}[n.rsplit("_", 1)[1]]
             out["C04"].append(H(group, P + n, q if n.endswith("_below") else "t", timeout=1500, mem=14, mode="full", replay="native:arbitrary_len", schema=[],
@@ -297,6 +298,18 @@ def l2_backend(name, group, aad, sizes, quick=True, paserk=True, pke=True, publi
             ln = sizes["pke_len"] + {"below": -1, "exact": 0, "above": 1}[n.rsplit("_", 1)[1]]
             out["C04"].append(H(group, P + n, q if n.endswith("_exact") else "t", timeout=1800, mem=14, mode="full", replay="native:arbitrary_len", schema=[],
                                 replay_args={"backend": name, "op": "pke", "n": ln}, doc="%s: unseal_key on arbitrary bytes of length %d" % (name, ln)))
+    if keys:
+        for n in ("c08_local_key_codec_n32", "c08_local_key_codec_n31", "c08_local_key_codec_n33", "c08_local_key_codec_n64"):
+            out["C08"].append(H(group, P + n, q if n.endswith(("n32", "n33")) else "t", timeout=600, mem=10, mode="full", replay="none",
+                                doc="%s local key: %s bytes are %s; encode(decode(b)) == b; clone encodes identically" % (name, n[-2:], "accepted" if n.endswith("n32") else "rejected")))
+        out["C08"].append(H(group, P + "c08_signing_key_codec", q, timeout=1800, mem=14, mode="lean", replay="none",
+                            doc="%s: a generated key pair's public (%d B) and secret (%d B) encodings survive decode->encode and clone unchanged; the re-parsed secret key derives the same public key%s" % (
+                                name, keys["pub_len"], keys["sec_len"], "; the public half of the secret encoding equals the derived public key" if keys.get("pub_in_secret") else "")))
+        for n in ("c08_asym_wrong_len_short", "c08_asym_wrong_len_long", "c08_asym_wrong_len_33"):
+            out["C08"].append(H(group, P + n, "t", timeout=900, mem=10, mode="full", replay="none", doc="%s: public/secret key decoders reject byte strings of a wrong length (%s)" % (name, n.rsplit("_", 1)[1])))
+        for n in ("c13_id_transcript_lid", "c13_id_transcript_sid", "c13_id_transcript_pid"):
+            out["C13"].append(H(group, P + n, q if n.endswith("lid") else "t", timeout=600, mem=10, mode="full", replay="none",
+                                doc="%s hash_key: the digest input is exactly paserk header ‖ %s ‖ key text and the id is its first 33 bytes" % (name, n[-3:])))
     for k, hs in (extra or {}).items():
         out[k] += hs
     BACKENDS[name] = out
@@ -307,7 +320,7 @@ _EXTRA16 = lambda g, nm: {"C16": [
     H(g, "proofs::pw_rng_fail_closed_at0", "qt", timeout=900, mode="lean", replay="native:rng_fail", schema=[], replay_args={"backend": nm, "op": "pw", "at": 0}, doc="%s PBKW: failure of the salt draw only => Err" % nm),
     H(g, "proofs::pw_rng_fail_closed_at1", "qt", timeout=900, mode="lean", replay="native:rng_fail", schema=[], replay_args={"backend": nm, "op": "pw", "at": 1}, doc="%s PBKW: failure of the nonce draw only => Err" % nm),
     H(g, "proofs::pke_rng_fail_closed_", "qt", timeout=1200, mode="lean", replay="native:rng_fail", schema=[], replay_args={"backend": nm, "op": "pke", "at": 0}, doc="%s PKE: failure of the ephemeral-key draw => Err" % nm)]}
-_v4 = l2_backend("v4", "v4", True, {"secret_len": 64, "pke_len": 96, "nonce": 32, "tag": 32, "sig": 64, "pie_over": 64, "pw_over": 88}, extra={
+_v4 = l2_backend("v4", "v4", True, {"secret_len": 64, "pke_len": 96, "nonce": 32, "tag": 32, "sig": 64, "pie_over": 64, "pw_over": 88}, keys={"pub_len": 32, "sec_len": 64, "pub_in_secret": True}, extra={
     "C16": [H("v4", "proofs::local_nonce_is_draw_", "qt", timeout=600, mode="lean", replay="none", doc="v4: the token nonce is exactly the drawn randomness (freshness inherited from the RNG)"),
             ] + _EXTRA16("v4", "v4")["C16"]})
 
@@ -393,11 +406,16 @@ _val = [H("core_units", "validation::" + n, "qt", timeout=300, doc=d) for n, d i
     ("val_slice_vec_n3", "Vec<T> and [T] of length 3 accept iff every member accepts, each member consulted"),
     ("val_pointers_transparent", "Box<T>, Box<dyn Validate>, Rc<T>, Arc<T> are transparent"),
     ("val_map_and_novalidation", "map validates the projection; NoValidation accepts everything")]]
-_jv = [H("json_units", "validators::" + n, t, timeout=900, doc=d) for n, t, d in [
+_jv = [H("json_units", "validators::" + n, t, timeout=2400 if "leeway_exact" in n or "leeway_both" in n else 1200, doc=d) for n, t, d in [
     ("time_exact", "qt", "Time: accept iff (no exp or exp >= now) and (no nbf or nbf <= now); all timestamps within ±2^36 s at ns resolution"),
-    ("time_leeway_exact_exp", "qt", "TimeWithLeeway: exp bound widened by exactly the leeway (leeway < 2^30 s, any ns)"),
-    ("time_leeway_exact_nbf", "qt", "TimeWithLeeway: nbf bound widened by exactly the leeway"),
-    ("time_leeway_both_and_absent", "t", "TimeWithLeeway with exp/nbf presence symbolic"),
+    ("time_leeway_case0_borrow", "qt", "TimeWithLeeway at now=1000.000000500 s, leeway 1.5 s (nanosecond borrow): exp/nbf and their presence symbolic; both bounds widened by exactly the leeway"),
+    ("time_leeway_case1_carry", "qt", "TimeWithLeeway at now=1000.9 s, leeway 0.25 s (nanosecond carry, sub-second leeway)"),
+    ("time_leeway_case2_large", "t", "TimeWithLeeway at now=1700000000.123456789 s, leeway 3600.999999999 s"),
+    ("time_leeway_case3_whole", "t", "TimeWithLeeway, whole-second leeway 2 s"),
+    ("time_leeway_case4_1ns", "qt", "TimeWithLeeway, leeway of 1 ns at the epoch"),
+    ("time_leeway_case5_zero", "t", "TimeWithLeeway with zero leeway equals Time"),
+    ("time_leeway_case6_negative_now", "t", "TimeWithLeeway with now before the epoch, leeway 7.999999998 s"),
+
     ("has_expiry_exact", "qt", "HasExpiry accepts iff exp is present"),
     ("subject_2_2", "qt", "ForSubject: present and equal (2-byte strings), decoys in the other claims"),
     ("subject_1_2", "t", "ForSubject: different lengths never accepted"),
@@ -425,7 +443,7 @@ _pae = [H("core_units", "pae::" + n, t, timeout=to, mem=14, doc=d) for n, t, to,
     ("pae_n8", "t", 1800, "N=8 with multi-fragment pieces"),
     ("pae_n5_local_small", "qt", 900, "N=5 local shape, fragment lengths 0..2 (quick variant)"),
     ("pae_n4_public_small", "qt", 900, "N=4 public shape, fragment lengths 0..2 (quick variant)"),
-    ("pae_vec_bytes", "qt", 900, "Vec<u8> writer receives exactly the spec's bytes (3 pieces, symbolic contents)"),
+    ("pae_vec_bytes", "qt", 1800, "Vec<u8> writer receives exactly the spec's bytes (2 pieces, 3+1 fragments, symbolic contents)"),
     ("pae_boundary_shift", "t", 1800, "the same 3 bytes split differently between message|footer|assertion always encode differently")]]
 PROPS["C15"] = Prop(
     "C15", _pae,
@@ -461,7 +479,10 @@ PROPS["C16"] = Prop(
              "draws made inside library models without an error channel (RSA key generation, libsodium random::*)"],
     models=L2_MODELS, assumptions=L2_ASSUME)
 
-_api = [H("core_units", "api::" + n, t, timeout=to, mem=14, mode="full", doc=d) for n, t, to, d in [
+# API-level harnesses run without CBMC's pointer instrumentation (mode nomem): in full mode the SAT
+# instances exceed 14 GB; Rust-level panics (index, slice, unwrap, overflow) are still checked, and
+# paseto-core's only unsafe block (base64.rs) is covered in full mode by the base64 harnesses
+_api = [H("core_units", "api::" + n, t, timeout=to, mem=14, mode="nomem", doc=d) for n, t, to, d in [
     ("keytext_local_t0", "qt", 600, "KeyText<Local>: every 9-byte string; accepted iff == 'k4.local.'"),
     ("keytext_local_t1", "t", 600, "KeyText<Local>: header + 1 char (never valid)"),
     ("keytext_local_t2", "qt", 900, "KeyText<Local>: header + 2 chars: strict canonical base64url and Display round trip"),
@@ -495,7 +516,7 @@ PROPS["C09"].models = ["core::slice::memchr::memchr (used by str::split_once('.'
                        "arbitrary backend AV for V::decode / Payload / Footer (L3)"]
 
 PROPS["C04"] = Prop(
-    "C04", [h for h in PROPS["C09"].harnesses if h.mode == "full" and ("decode_strict" in h.name or "small_dst" in h.name or h.name.startswith("api::"))] + _l3_unseal[:1] + _collect("C04"),
+    "C04", [h for h in PROPS["C09"].harnesses if ("decode_strict" in h.name or "small_dst" in h.name or h.name.startswith("api::"))] + _l3_unseal[:1] + _collect("C04"),
     explanation="Kani's default checks (panic, unwrap/expect, index and slice bounds, arithmetic overflow, invalid or misaligned pointer dereference, bad dealloc) are the assertion; inputs are arbitrary. L1: base64 decode on every string of each length and every FromStr/Display pair of paseto-core on fully symbolic strings. L2: each backend's unseal / pie_unwrap_key / get_params / pw_unwrap_key / unseal_key on arbitrary byte strings of the lengths around each minimum (n=0, min-1, min, min+1..2), in full-check mode.",
     functions=["paseto_core::base64::*", "every FromStr/Display of paseto-core", "<backend>::core::{local,public}::unseal", "<backend>::core::{pie_wrap,pw_wrap,pke}::{pie_unwrap_key, get_params, pw_unwrap_key, unseal_key}"],
     bounds={"quick": "strings up to header+4 chars; payload lengths min-1 and min per operation", "thorough": "adds lengths 0 and min+1/min+2, longer strings"},
@@ -518,18 +539,34 @@ _EXTRA16 = lambda g, nm: {"C16": [
     H(g, "proofs::pke_rng_fail_closed_", "qt", timeout=1200, mode="lean", replay="native:rng_fail", schema=[], replay_args={"backend": nm, "op": "pke", "at": 0}, doc="%s PKE: failure of the ephemeral-key draw => Err" % nm)]}
 _x3 = _EXTRA16("v3", "v3")
 _x3["C16"].append(H("v3", "proofs::local_nonce_is_draw_", "qt", timeout=600, mode="lean", replay="none", doc="v3: the token nonce is exactly the drawn randomness"))
-_v3 = l2_backend("v3", "v3", True, {"secret_len": 48, "pke_len": 129, "nonce": 32, "tag": 48, "sig": 96, "pie_over": 80, "pw_over": 100}, extra=_x3)
-_v2 = l2_backend("v2", "v2", False, {"secret_len": 64, "pke_len": 96, "nonce": 24, "tag": 16, "sig": 64, "pie_over": 64, "pw_over": 88}, extra=_EXTRA16("v2", "v2"))
+_v3 = l2_backend("v3", "v3", True, {"secret_len": 48, "pke_len": 129, "nonce": 32, "tag": 48, "sig": 96, "pie_over": 80, "pw_over": 100}, keys={"pub_len": 49, "sec_len": 48}, extra=_x3)
+_v2 = l2_backend("v2", "v2", False, {"secret_len": 64, "pke_len": 96, "nonce": 24, "tag": 16, "sig": 64, "pie_over": 64, "pw_over": 88}, keys={"pub_len": 32, "sec_len": 64, "pub_in_secret": True}, extra=_EXTRA16("v2", "v2"))
+_xa = {"C16": [H("v3awslc", "proofs::pw_rng_fail_closed_at0", "t", timeout=900, mode="lean", replay="none", doc="v3-aws-lc PBKW: failure of the salt draw only => Err"),
+               H("v3awslc", "proofs::pw_rng_fail_closed_at1", "t", timeout=900, mode="lean", replay="none", doc="v3-aws-lc PBKW: failure of the nonce draw only => Err"),
+               H("v3awslc", "proofs::local_nonce_is_draw_", "t", timeout=600, mode="lean", replay="none", doc="v3-aws-lc: the token nonce is exactly the drawn randomness")],
+       "C04": [H("v3awslc", "proofs::c04_ffi_ledger_sign_verify", "qt", timeout=1800, mem=14, mode="full", replay="none",
+                 doc="v3-aws-lc unsafe FFI wrappers (lc/mod.rs, lc/ptr.rs): key generation, signing, verification, clone and encode free every aws-lc object exactly once and never use one after free (alloc/free ledger of the FFI model), every Kani memory check on"),
+               H("v3awslc", "proofs::c04_public_key_usable_len1", "qt", timeout=900, mem=12, mode="full", replay="native:parse_any", schema=[], replay_args={"string": "k3.public.AA"},
+                 doc="v3-aws-lc: every 1-byte string offered as k3.public is rejected or yields a key that can be encoded, cloned and used (00 = point at infinity)"),
+               H("v3awslc", "proofs::c04_public_key_usable_len49", "t", timeout=1500, mem=12, mode="full", replay="none", doc="v3-aws-lc: every 49-byte string offered as k3.public is rejected or usable"),
+               H("v3awslc", "proofs::c04_public_key_usable_len97", "t", timeout=1500, mem=12, mode="full", replay="none", doc="v3-aws-lc: every 97-byte string offered as k3.public is rejected or usable")]}
+_va = l2_backend("v3-aws-lc", "v3awslc", True, {"secret_len": 48, "pke_len": 129, "nonce": 32, "tag": 48, "sig": 96, "pie_over": 80, "pw_over": 100, "sign_loops": 3000},
+                 keys={"pub_len": 49, "sec_len": 48}, extra=_xa)
+_vs = l2_backend("v4-sodium", "v4sodium", True, {"secret_len": 64, "pke_len": 96, "nonce": 32, "tag": 32, "sig": 64, "pie_over": 64, "pw_over": 88},
+                 keys={"pub_len": 32, "sec_len": 64, "pub_in_secret": True}, rng_fail=False,
+                 extra={"C16": [H("v4sodium", "proofs::local_nonce_is_draw_", "t", timeout=600, mode="lean", replay="none", doc="v4-sodium: the token nonce is exactly the drawn randomness")]})
 # quick tiers: measured costs (14 parallel jobs): v4/v2 token harness ~4 min, v3 token harness ~10-14 min (real ctr crate),
 # PKE ~10 min, PBKW >10 min / >16 GB -> PBKW round-trip and tamper harnesses are thorough-only
 _PBKW_T = ["pw_roundtrip", "pw_tamper", "pw_default_must"]
-_demote(_v4, ["local_roundtrip_m3_f2", "public_roundtrip_m3_f2", "local_tamper_payload_bit", "local_tamper_w8", "local_tamper_w10", "local_tamper_w6", "local_tamper_w14",
+_demote(_v3, ["local_roundtrip_m3_f2", "local_tamper_payload_bit", "public_tamper_payload_bit", "local_rng_fail", "public_rng_fail", "pie_rng_fail", "pw_rng_fail", "nonce_is_draw", "pie_tamper_w0", "local_unseal_arbitrary_min"])
+_demote(_va, ["public_roundtrip_m3_f2", "local_tamper_payload_bit", "c04_ffi_ledger", "c04_public_key_usable_len1", "local_unseal_arbitrary_min"])
+_demote(_vs, ["local_roundtrip_m3_f2", "local_tamper_payload_bit", "public_tamper_payload_bit", "local_unseal_arbitrary_min"])
+_demote(_v2, ["local_roundtrip_m3_f2", "public_roundtrip_m3_f2", "local_tamper_payload_bit", "aad_refused", "local_tamper_w8", "local_rng_fail", "pie_roundtrip_local",
+              "local_unseal_arbitrary_min"])
+_demote(_v4, ["c08_local_key_codec_n32", "c08_signing_key_codec", "c13_id_transcript_lid"] + ["local_roundtrip_m3_f2", "public_roundtrip_m3_f2", "local_tamper_payload_bit", "local_tamper_w8", "local_tamper_w10", "local_tamper_w6", "local_tamper_w14",
               "public_tamper_payload_bit", "public_tamper_w8", "public_tamper_w12", "rng_fail", "nonce_is_draw", "pie_roundtrip_local", "pie_tamper_w0", "pie_tamper_w1",
               "pke_roundtrip", "pke_tamper_w0", "local_unseal_arbitrary_below", "local_unseal_arbitrary_min", "public_unseal_arbitrary_below", "pie_unwrap_arbitrary_below",
               "pw_unwrap_arbitrary_below"])
-_demote(_v3, ["local_roundtrip_m3_f2", "local_tamper_payload_bit", "public_tamper_payload_bit", "rng_fail", "nonce_is_draw", "pie_tamper_w0", "local_unseal_arbitrary_min"])
-_demote(_v2, ["local_roundtrip_m3_f2", "public_roundtrip_m3_f2", "local_tamper_payload_bit", "aad_refused", "local_tamper_w8", "local_rng_fail", "pie_roundtrip_local",
-              "local_unseal_arbitrary_min"])
 for _p in ("C01", "C02", "C04", "C05", "C06", "C12", "C16"):
     _have = {(h.group, h.name) for h in PROPS[_p].harnesses}
     PROPS[_p].harnesses += [h for h in _collect(_p) if (h.group, h.name) not in _have]
@@ -569,3 +606,51 @@ PROPS["C07"] = Prop(
     bounds={"quick": "32-byte wrapped key, all wrapping keys and nonces", "thorough": "same"},
     outside=["PBKW/PKE derivation transcripts; v1, v2, v4 and the FFI backends; KDF parameter domains"],
     models=L2_MODELS, assumptions=L2_ASSUME)
+
+PROPS["C08"] = Prop(
+    "C08", _collect("C08"),
+    explanation="Per backend over the ideal-primitive models: local keys are accepted iff exactly 32 bytes and re-encode to the same bytes; a generated signing key pair's public and secret encodings have the prescribed lengths, survive decode->encode and Clone unchanged, the re-parsed secret key derives the same public key, and (Ed25519) the public half stored in the secret encoding is the derived public key; byte strings of a wrong length are rejected by the public/secret decoders. Point validity (on-curve / identity / small order) is a library predicate: it is modelled as an uninterpreted predicate, so only what the paseto-rs code does with the library's verdict is checked.",
+    functions=["<backend>::core::{local,public}::{HasKey::encode, HasKey::decode, Clone, unsealing_key, random}", "paseto-v3-aws-lc/src/lc/mod.rs::{SigningKey::{from_sec1_bytes, encode, clone, verifying_key}, VerifyingKey::{from_sec1_bytes, clone, compressed_pub_key}}"],
+    bounds={"quick": "v4: 32/33-byte local keys, one generated key pair (all seeds)", "thorough": "all five modelled backends; local lengths 31/32/33/64; asymmetric wrong lengths (len-1, len+1, 33)"},
+    outside=["which encodings the real curve libraries accept as points (identity, small order, off-curve): modelled as an uninterpreted predicate", "RSA keys (paseto-v1 has no model crate)",
+             "'verifies everything it signs' is C01"],
+    models=L2_MODELS, assumptions=L2_ASSUME)
+
+_c13core = [H("core_units", "api::" + n, t, timeout=1500, mem=14, mode="nomem", doc=d) for n, t, d in [
+    ("c13_id_composition_local", "qt", "Key::id() (L3): the backend hash is asked for (\".lid.\", \"k4.local.\" ‖ base64url(key bytes)); the id is the digest it returns; Display is \"k4.lid.\" ‖ base64url(33 bytes)"),
+    ("c13_id_composition_secret", "t", "same for secret keys (.sid. / .secret.)"),
+    ("c13_id_composition_public", "t", "same for public keys (.pid. / .public.)"),
+    ("keyid_lid_44", "t", "KeyId<Local>::from_str on every 51-byte string: accepted iff header + 44 canonical characters; Display round trip"),
+    ("keyid_lid_43", "t", "43 characters (32 bytes) rejected"), ("keyid_lid_46", "t", "46 characters (34 bytes) rejected"),
+    ("keyid_roundtrip_eq_ord_hash", "qt", "FromStr(Display(id)) == id for all 33-byte ids; Eq / Ord / Hash agree with the bytes")]]
+PROPS["C13"] = Prop(
+    "C13", _c13core + _collect("C13"),
+    explanation="L3: the generic Key::id() of paseto-core, over a backend whose hash_key records its arguments, hashes exactly the id header and the key's canonical PASERK text and returns the backend's digest; KeyId text parsing/printing and Eq/Ord/Hash are checked on symbolic ids. L2: each backend's hash_key feeds its hash exactly PASERK header ‖ id header ‖ key text and truncates to 33 bytes; sibling backends (v3/v3-aws-lc, v4/v4-sodium) issue the same transcript to the same ideal function, so their ids agree under 'same primitive => same function'.",
+    functions=["paseto_core::key::Key::id", "paseto_core::paserk::id::{KeyId::from, Display, FromStr, Eq, Ord, Hash}", "<backend>::core::V::hash_key (IdVersion)"],
+    bounds={"quick": "4-byte key material at L3; 9-byte key text at L2 (v4)", "thorough": "all kinds, all five modelled backends, id strings of 43/44/46 characters"},
+    outside=["v1 PEM-vs-DER inputs (needs the real DER/PEM parser)", "agreement of the real SHA-384 / BLAKE2b implementations across libraries"],
+    models=L2_MODELS + ["L3: arbitrary backend AV"], assumptions=L2_ASSUME)
+
+PROPS["C10"] = Prop(
+    "C10", [H("core_units", "api::c10_header_table", "qt", timeout=600, mode="full", doc="the eleven kind headers read from paseto-core's KeyType/SealingKey constants all start and end with '.', and none is a prefix of another (PKE kinds deliberately share .public./.secret.)"),
+            H("core_units", "api::c10_no_string_accepted_twice", "t", timeout=3000, mem=20, mode="nomem", doc="one symbolic 16-byte string offered to eight PASERK parsers (k4 and k3; local, secret, public, local-pw, secret-pw, seal): at most one accepts")]
+    + [h for h in PROPS["C09"].harnesses if h.name.startswith("api::") and any(x in h.name for x in ("keytext_local_t3", "keytext_secret_t3", "keytext_public_t2", "keytext_v3_local_t3", "pie_local_t3", "pw_local_t3", "seal_t3", "token_p4_nodot", "keyid_lid_44"))]
+    + [h for h in _collect("C08") if "local_key_codec" in h.name or "wrong_len" in h.name]
+    + [h for h in _collect("C06") if "relabel" in h.name],
+    explanation="(i) every parser accepts only strings that start with exactly its own version and kind header followed by canonical base64url (the C09 API harnesses on fully symbolic strings); (ii) the header constants are pairwise distinct and prefix-free, and a symbolic string is accepted by at most one of eight parsers; (iii) key bytes of another kind's length are rejected (C08 length harnesses); (iv) an authenticated blob whose kind header is relabelled local<->secret fails to unwrap (C06 relabel classes).",
+    functions=["paseto_core::key::{KeyType, SealingKey} constants", "every FromStr of paseto-core", "<backend>::HasKey::decode", "<backend>::{pie_unwrap_key, pw_unwrap_key}"],
+    bounds={"quick": "header table; 16-byte cross-parser string; header+3 character strings per parser; v4 relabel classes", "thorough": "all backends' length and relabel harnesses"},
+    outside=["relabel to another version's header (the version prefix is a constant of the same MAC transcript)", "token purposes: local and public token payloads go to different key types, which the type system separates"],
+    models=PROPS["C09"].models + L2_MODELS, assumptions=L2_ASSUME)
+
+PROPS["C14"] = Prop(
+    "C14", [H("json_units", "wire::" + n, t, timeout=1500, mem=12, doc=d) for n, t, d in [
+        ("serialize_emits_exactly_present_claims", "qt", "presence of each of the 7 claims symbolic: exactly the present claims are emitted, in order iss sub aud exp nbf iat jti, under their names, each with its own value (identity by address)"),
+        ("deserialize_map_n0", "qt", "empty map"), ("deserialize_map_n1", "qt", "one member: any of the 7 names or unknown; null or a 1-character string"),
+        ("deserialize_map_n2", "qt", "two members in any order incl. duplicates: unknown ignored; null then value accepted; value then duplicate rejected"),
+        ("deserialize_map_n3", "t", "three members")]],
+    explanation="PARTIAL CLAIM at the serde data-model level: the hand-written Serialize emits exactly the present claims under the registered names with their own values; the Deserialize visitor, fed symbolic sequences of up to 3 map members by a harness-defined MapAccess, ignores unknown members and order, rejects a duplicate of an already-set claim, accepts null-then-value, and otherwise assigns each claim the last value. The JSON text level (escapes, RFC 3339 / nanosecond formatting and parsing) is serde_json's and jiff's code and is not claimed; timestamp-valued members are offered only as null on the deserialize side.",
+    functions=["paseto_json::RegisteredClaims::{serialize, deserialize}, RegisteredClaimsVisitor::visit_map, RegisteredClaimFieldVisitor"],
+    bounds={"quick": "7 presence bits; maps of 0..2 members", "thorough": "maps of 3 members"},
+    outside=["JSON text (serde_json), RFC 3339 text (jiff), Json<T> wrappers (two-line delegations to serde_json)", "string values longer than 1 character"],
+    models=["harness-defined serde Serializer / Deserializer / MapAccess (the serde data model)"], assumptions=["serde's data-model contract between Serialize/Deserialize impls and formats"])
